@@ -1,8 +1,7 @@
-"""C03 flushed image is a valid qcow2 file with exact refcounts (independent checker = extracted Spec/Image.validb)."""
-import seqprop
+"""C03: see DESIGN.md section 3."""
+import c10
 
 
 def run(tier, seed, replay):
-    n = 150 if tier == 'quick' else 3000
-    return seqprop.run_histories('C03', tier, seed, ('valid', 'map'), n, 30, replay=replay,
-                                 explanation='Every file snapshot taken after a successful flush_meta is judged by the extracted specification checker validb (structure, COPIED flags, nothing beyond the virtual size, stored refcount = number of references for every cluster); get_mapping of every cluster is compared with the specification reader on the flushed file.')
+    n = 60 if tier == 'quick' else 1500
+    return c10.run_foreign('C03', tier, seed, ('valid', 'map'), n, 'Every flushed snapshot judged by the extracted specification checker validb; get_mapping vs the specification reader.', plain_n=(90 if tier == 'quick' else 1500))
